@@ -201,6 +201,11 @@ def enum_atoms(seed):
     thorough = os.environ.get("VERIF_TIER") == "thorough"
     rnd = random.Random(seed)
     base = gen_atoms(rnd, 400 if thorough else 120)
+    # package names made of hyphen-joined chunks that look like versions, revisions or plain words, bare and with a version
+    # (these are exact strings, not mutated): the "must not end in a hyphen followed by a version" rule at every chunk count
+    CHUNKS = ("7", "3d", "1_p2", "r1", "r05", "a", "1a", "x_y", "1.2")
+    chunk_names = ["-".join(t) for n_ in (1, 2, 3) for t in itertools.product(CHUNKS, repeat=n_)]
+    exact = [f"cat/{n_}" for n_ in chunk_names] + [f"=cat/{n_}-1.0" for n_ in chunk_names if thorough or hash(n_) % 3 == 0] + [f">=cat/{n_}-2-r3" for n_ in chunk_names[:90]]
     probe_pkgs = None
     fails, cases = [], 0
     kinds = {}
@@ -213,8 +218,11 @@ def enum_atoms(seed):
             fails.append({"model": dict(model, kind=kind), "detail": detail})
     eapis = [None, "0", "1", "2", "4", "5", "8"] if not thorough else [None] + [str(i) for i in range(9)]
     seen = set()
-    for b in base:
-        variants = [b] + (list(mutations(b)) if thorough or rnd.random() < .25 else rnd.sample(list(mutations(b)), 12))
+    for b in base + [None]:
+        if b is None:
+            variants = exact
+        else:
+            variants = [b] + (list(mutations(b)) if thorough or rnd.random() < .25 else rnd.sample(list(mutations(b)), 12))
         for s in variants:
             if not s or s in seen:
                 continue
@@ -242,7 +250,7 @@ def enum_atoms(seed):
                         continue
                     if b2 != a or str(b2) != text:
                         note("render_not_equal", {"atom": s, "eapi": e, "rendered": text}, f"atom({s!r}, eapi={e}) renders as {text!r}, which parses to a different atom {b2!r}")
-    return {"name": "C03.atoms.bounded_enumeration", "bound": f"{len(base)} grammar-generated atoms and {'all' if thorough else 'a sample of'} their single-character deletions / insertions / replacements ({len(seen)} strings) "
+    return {"name": "C03.atoms.bounded_enumeration", "bound": f"{len(base)} grammar-generated atoms and {'all' if thorough else 'a sample of'} their single-character deletions / insertions / replacements and {len(exact)} atoms over package names of 1..3 version- / revision- / word-like chunks ({len(seen)} strings) "
             f"under EAPI {[e or 'none' for e in eapis]}: verdict against the PMS 8.3 oracle, exception type, render/parse round trip", "cases": cases, "failures": fails}
 
 
